@@ -21,7 +21,7 @@ fn run_case(line: &str, out: &mut String) {
         return;
     }
     match toks[0] {
-        "get" | "getmut" | "view" | "axisiter" | "indices" | "indiceshist" | "viewhist" | "sum" | "getaxis" | "toarray" | "axisfold" => arrays::run(&toks, out),
+        "get" | "wnew" | "getmut" | "view" | "axisiter" | "indices" | "indiceshist" | "viewhist" | "sum" | "getaxis" | "toarray" | "axisfold" => arrays::run(&toks, out),
         "fold" | "marg" | "project" | "pmf" | "binom" => spectrum::run(&toks, out),
         "npyw" | "npyr" | "textw" | "read" | "fmt" | "parse" => bytesio::run(&toks, out),
         "classify" | "sites" | "smapfile" => create::run(&toks, out),
